@@ -160,11 +160,11 @@ theorem elem_ty_lt (S : Schema) (t : TypeId) (a : Attrs) (m : Marks) (k : List N
       simp [Dfa.run, Dfa.matchType, Dfa.edgesOf] at hacc
 
 /-- one entry per ancestor of `from`: its type and the match behind the child the path goes into -/
-def FrontierOf (S : Schema) (rf : RPos) (fr0 : List FItem) : Prop :=
+def FrontierOf (S : Schema) (rf : RPos) (qtop : Nat) (fr0 : List FItem) : Prop :=
   fr0.length = rf.depth + 1 ∧ ∀ i, i ≤ rf.depth → ∃ q, fr0[i]? = some ⟨S.tyOf (rf.node i), some q⟩ ∧
-    S.contentMatchAt (S.tyOf (rf.node i)) (rf.node i).kids (rf.indexAfter i) = some q
+    frontSt S rf qtop i = some q
 
-theorem FrontierOf.some_st {S : Schema} {rf : RPos} {fr0 : List FItem} (h : FrontierOf S rf fr0) :
+theorem FrontierOf.some_st {S : Schema} {rf : RPos} {qtop : Nat} {fr0 : List FItem} (h : FrontierOf S rf qtop fr0) :
     ∀ it ∈ fr0, ∃ q, it.st = some q := by
   intro it hit
   obtain ⟨i, hi⟩ := List.mem_iff_getElem?.1 hit
@@ -179,10 +179,10 @@ theorem FrontierOf.some_st {S : Schema} {rf : RPos} {fr0 : List FItem} (h : Fron
 
 /-- **what `find_close_level` answered**, with the position `close` continues from -/
 theorem closeFacts_of (S : Schema) {ty0 : TypeId} {a0 : Attrs} {m0 : Marks} {K : List Node} {t : Nat}
-    {rf tgt : RPos} (htg : (Node.elem ty0 a0 m0 K).resolve t = some tgt) (hn : fnorm K = true)
-    (fr0 : List FItem) (hF : FrontierOf S rf fr0) (lv : CloseLevel)
+    {rf tgt : RPos} {qtop : Nat} (htg : (Node.elem ty0 a0 m0 K).resolve t = some tgt) (hn : fnorm K = true)
+    (fr0 : List FItem) (hF : FrontierOf S rf qtop fr0) (lv : CloseLevel)
     (hlv : findCloseLevel S (.elem ty0 a0 m0 K) tgt fr0 = .ok (some lv)) :
-    CloseFacts S rf tgt lv.move lv.depth lv.fit (dropInnerB tgt lv.depth) ∧
+    CloseFacts S rf qtop tgt lv.move lv.depth lv.fit (dropInnerB tgt lv.depth) ∧
       ∃ pm, (Node.elem ty0 a0 m0 K).resolve pm = some lv.move ∧ t ≤ pm ∧
         (dropInnerB tgt lv.depth = true → lv.move.depth = lv.depth ∧ lv.move.textOffset = 0) ∧
         (dropInnerB tgt lv.depth = false → lv.move = tgt) := by
@@ -192,7 +192,7 @@ theorem closeFacts_of (S : Schema) {ty0 : TypeId} {a0 : Attrs} {m0 : Marks} {K :
   have hcT : lv.depth ≤ tgt.depth := by omega
   have Rt := resolve_resolved htg
   -- the frontier entries in terms of `from`
-  have hin : ∀ i, i < lv.depth → ∃ q, S.contentMatchAt (S.tyOf (rf.node i)) (rf.node i).kids (rf.indexAfter i) = some q ∧
+  have hin : ∀ i, i < lv.depth → ∃ q, frontSt S rf qtop i = some q ∧
       contentAfterFits S tgt i (S.tyOf (rf.node i)) (some q) true = .ok (some []) := by
     intro i hi
     obtain ⟨it', hit', hf'⟩ := closeInner_spec S tgt fr0 lv.depth hinner i hi
@@ -201,7 +201,7 @@ theorem closeFacts_of (S : Schema) {ty0 : TypeId} {a0 : Attrs} {m0 : Marks} {K :
     simp only [Option.some.injEq] at hq
     subst hq
     exact ⟨q, hcm, hf'⟩
-  have hlev : ∃ q, S.contentMatchAt (S.tyOf (rf.node lv.depth)) (rf.node lv.depth).kids (rf.indexAfter lv.depth) = some q ∧
+  have hlev : ∃ q, frontSt S rf qtop lv.depth = some q ∧
       contentAfterFits S tgt lv.depth (S.tyOf (rf.node lv.depth)) (some q) (dropInnerB tgt lv.depth) = .ok (some lv.fit) := by
     obtain ⟨q, hq, hcm⟩ := hF.2 lv.depth hcD
     rw [hit] at hq
@@ -227,8 +227,8 @@ theorem closeFacts_of (S : Schema) {ty0 : TypeId} {a0 : Attrs} {m0 : Marks} {K :
       omega
 
 /-- the filler `close_frontier_node` puts behind level `i` of `from` -/
-def fillOf (S : Schema) (rf : RPos) (i : Nat) : List Node :=
-  match S.contentMatchAt (S.tyOf (rf.node i)) (rf.node i).kids (rf.indexAfter i) with
+def fillOf (S : Schema) (rf : RPos) (qtop : Nat) (i : Nat) : List Node :=
+  match frontSt S rf qtop i with
   | some q =>
     (match fillOpt S (S.dfa (S.tyOf (rf.node i))) q [] true with
      | .ok (some a) => a
@@ -239,16 +239,17 @@ def fillOf (S : Schema) (rf : RPos) (i : Nat) : List Node :=
     every entry -/
 theorem fills_exist (S : Schema) (hdet : DetS S) (hfl : FillersOK S) (hcl : Closable S) {ty0 : TypeId} {a0 : Attrs}
     {m0 : Marks} {K : List Node} {f : Nat} {rf : RPos} (hf : (Node.elem ty0 a0 m0 K).resolve f = some rf)
-    (hv : S.checkNode (.elem ty0 a0 m0 K) = true) (fr0 : List FItem) (hF : FrontierOf S rf fr0) (c : Nat)
+    (hv : S.checkNode (.elem ty0 a0 m0 K) = true) (qtop : Nat)
+    (hqtop : qtop = 0 ∨ ∃ q1 e, e ∈ (S.dfa (S.tyOf rf.parent)).edgesOf q1 ∧ e.2 = qtop)
+    (fr0 : List FItem) (hF : FrontierOf S rf qtop fr0) (c : Nat)
     (hc : c ≤ rf.depth) :
     ∃ fills : List (List Node), fills.length = rf.depth - c ∧
       (∀ p ∈ (fr0.drop (c + 1)).zip fills, FillRel S p.1 p.2) ∧
-      (∀ k, k < rf.depth - c → ∃ q fill, S.contentMatchAt (S.tyOf (rf.node (c + 1 + k))) (rf.node (c + 1 + k)).kids
-          (rf.indexAfter (c + 1 + k)) = some q ∧ fills[k]? = some fill ∧
+      (∀ k, k < rf.depth - c → ∃ q fill, frontSt S rf qtop (c + 1 + k) = some q ∧ fills[k]? = some fill ∧
           fillOpt S (S.dfa (S.tyOf (rf.node (c + 1 + k)))) q [] true = .ok (some fill)) := by
   have key : ∀ i, i ≤ rf.depth → ∃ q fill, fr0[i]? = some ⟨S.tyOf (rf.node i), some q⟩ ∧
-      S.contentMatchAt (S.tyOf (rf.node i)) (rf.node i).kids (rf.indexAfter i) = some q ∧
-      fillOpt S (S.dfa (S.tyOf (rf.node i))) q [] true = .ok (some fill) ∧ fillOf S rf i = fill := by
+      frontSt S rf qtop i = some q ∧
+      fillOpt S (S.dfa (S.tyOf (rf.node i))) q [] true = .ok (some fill) ∧ fillOf S rf qtop i = fill := by
     intro i hi
     obtain ⟨q, hq, hcm⟩ := hF.2 i hi
     obtain ⟨t, a, m, k, e⟩ := node_elem_of hf i hi
@@ -256,19 +257,24 @@ theorem fills_exist (S : Schema) (hdet : DetS S) (hfl : FillersOK S) (hcl : Clos
     rw [e] at hck
     have hty := elem_ty_lt S t a m k hck
     have hsome : (fillBeforeTypes S (S.dfa (S.tyOf (rf.node i))) q [] true).isSome = true := by
-      rw [e]
-      simp only [Schema.tyOf, Node.tyOr]
-      have hrun : (S.dfa t).run 0 (S.types (k.take (rf.indexAfter i))) = some q := by
-        have := hcm
-        rw [e] at this
-        exact this
-      rcases run_target _ _ _ _ hrun with h0 | ⟨q1, ed, hed, hq1⟩
+      have htarget : q = 0 ∨ ∃ q1 ed, ed ∈ (S.dfa (S.tyOf (rf.node i))).edgesOf q1 ∧ ed.2 = q := by
+        rcases Nat.lt_or_ge i rf.depth with hlt | hge
+        · rw [frontSt_lt S rf qtop i hlt] at hcm
+          exact run_target _ _ _ _ hcm
+        · have e' : i = rf.depth := by omega
+          rw [e', frontSt_top] at hcm
+          simp only [Option.some.injEq] at hcm
+          rw [e', ← hcm]
+          exact hqtop
+      rw [e] at htarget ⊢
+      simp only [Schema.tyOf, Node.tyOr] at htarget ⊢
+      rcases htarget with h0 | ⟨q1, ed, hed, hq1⟩
       · rw [h0]; exact (hcl t hty).1
       · rw [← hq1]; exact (hcl t hty).2 q1 ed hed
     obtain ⟨r, hr⟩ := fillOpt_ok S hdet hfl (S.tyOf (rf.node i)) q [] true
     obtain ⟨fill, rfl⟩ := fillOpt_some S _ q hsome r hr
     exact ⟨q, fill, hq, hcm, hr, by simp only [fillOf, hcm, hr]⟩
-  refine ⟨(List.range (rf.depth - c)).map (fun k => fillOf S rf (c + 1 + k)), by simp, ?_, ?_⟩
+  refine ⟨(List.range (rf.depth - c)).map (fun k => fillOf S rf qtop (c + 1 + k)), by simp, ?_, ?_⟩
   · intro p hp
     obtain ⟨k, hk⟩ := List.mem_iff_getElem?.1 hp
     rw [List.getElem?_zip_eq_some, List.getElem?_drop, List.getElem?_map] at hk
